@@ -85,6 +85,7 @@ type l3Outcome struct {
 	Preempt2  string
 	Steps     int // single steps taken
 	AEnded    bool
+	BWaited   bool // B did not come back while A was parked (it waits for something A holds): A was let go first
 	// GlobalWrites: library-instruction counts after which the library's package-level
 	// data had changed (calibration runs only)
 	GlobalWrites []int
@@ -304,6 +305,38 @@ func l3Run(script *c17l3Script, k, k2, calibClient int) (out l3Outcome) {
 		}
 		return true
 	}
+	// pumpFor is pump with its own time limit, polling instead of blocking (a blocking wait
+	// only returns on an event, and a client that is blocked produces none).
+	pumpFor := func(limit time.Duration, cond func() bool) bool {
+		until := time.Now().Add(limit)
+		for !cond() {
+			if t.exited || time.Now().After(until) || time.Now().After(deadline) {
+				return false
+			}
+			wpid, err := syscall.Wait4(-1, &st, syscall.WALL|syscall.WNOHANG, nil)
+			if err == syscall.EINTR {
+				continue
+			}
+			if err != nil {
+				return false
+			}
+			if wpid == 0 {
+				time.Sleep(200 * time.Microsecond)
+				continue
+			}
+			c, kind, ok := t.handle(wpid, st)
+			if ok {
+				switch kind {
+				case l3Begin:
+					t.atBegin[c] = true
+				case l3End:
+					t.ended[c] = true
+					syscall.PtraceCont(wpid, 0)
+				}
+			}
+		}
+		return true
+	}
 	var releaseOthers func()
 	finish := func() {
 		// let everything run to the end and collect the verdict
@@ -324,6 +357,12 @@ func l3Run(script *c17l3Script, k, k2, calibClient int) (out l3Outcome) {
 		}
 		var v l3Verdict
 		if err := json.Unmarshal([]byte(last), &v); err != nil {
+			if wdFired {
+				// the tracer's own watchdog killed the traced process (a client that never came
+				// back, e.g. blocked behind the parked one): no verdict, not a death of its own
+				out.Inconcl = "watchdog: the traced process was killed after 25 s" + wdDiag
+				return
+			}
 			out.Crash = "tracee produced no verdict; stderr: " + tail(stderr.String(), 1500)
 			return
 		}
@@ -548,6 +587,14 @@ func l3Run(script *c17l3Script, k, k2, calibClient int) (out l3Outcome) {
 		}
 	} else {
 		syscall.PtraceCont(t.tid[1], 0)
+	}
+	// B's call takes microseconds to milliseconds natively. If it has not come back after two
+	// seconds it is waiting for something the parked client holds (a mutex, a sync.Once in
+	// progress): that is a legal schedule - B waits, A finishes, B carries on - so A is let go.
+	if !pumpFor(2*time.Second, func() bool { return t.ended[1] }) && !t.exited && !ended {
+		out.BWaited = true
+		syscall.PtraceCont(t.tid[0], 0)
+		ended = true // A has been resumed
 	}
 	if !pump(func() bool { return t.ended[1] }) && !t.exited {
 		kill("watchdog while B runs")
